@@ -502,6 +502,16 @@ class UpdateCollection(Message):
                 mp_reach = mprnlri
 
             if include_withdraw:
+                if mp_reach and withdraw_nlris:
+                    # the withdraws get messages of their own: squeezed in the room left beside the last
+                    # MP_REACH_NLRI, a withdraw which did not fit there was dropped although it fits in
+                    # an UPDATE of its own
+                    yield self._message(
+                        UpdateCollection.prefix(withdraws) + UpdateCollection.prefix(attr + mp_reach) + announced
+                    )
+                    mp_reach = b''
+                    announced = b''
+                    withdraws = b''
                 for mpurnlri in mp_withdraw.packed_unreach_attributes(
                     negotiated,
                     msg_size - len(withdraws + announced + mp_reach),
